@@ -28,12 +28,12 @@ JUMPS = {op: [i for i, k in enumerate(kinds) if k == "l"] for op, kinds in ISA.i
 
 def static_and_relation(lab_text, nolab_text):
     """Returns None or (symptom, description)."""
+    # physical lines count (comment-only and blank lines of raw emitted code are lines of the program); only label lines vanish
     L = [tokenize(l)[0] for l in lab_text.split("\n")]
-    L = [t for t in L if t]
     defs = {}
     instr = []
     for t in L:
-        if len(t) == 1 and t[0].endswith(":"):
+        if t and len(t) == 1 and t[0].endswith(":"):
             name = t[0][:-1]
             if name in defs:
                 return ("label-defined-twice", f"label {name!r} is defined twice in the labelled output")
@@ -42,7 +42,7 @@ def static_and_relation(lab_text, nolab_text):
             instr.append(t)
     n = len(instr)
     for i, t in enumerate(instr):
-        for j in JUMPS.get(t[0], ()):
+        for j in JUMPS.get(t[0] if t else "", ()):
             if j + 1 >= len(t):
                 return ("jump-operand-missing", f"line {i}: {' '.join(t)}")
             tgt = t[j + 1]
@@ -57,8 +57,9 @@ def static_and_relation(lab_text, nolab_text):
                 return ("jump-unresolved", f"labelled: {' '.join(t)} -- no such label")
     expected = [[(str(defs[x]) if (k > 0 and x in defs) else x) for k, x in enumerate(t)] for t in instr]
     N = [tokenize(l)[0] for l in nolab_text.split("\n")]
-    N = [t for t in N if t]
     for i, t in enumerate(N):
+        if not t:
+            continue
         if len(t) == 1 and t[0].endswith(":"):
             return ("label-left-in-label-free-output", f"line {i}: {t[0]}")
         for j in JUMPS.get(t[0], ()):
@@ -143,6 +144,10 @@ def build_cases(tier):
         cases.append(dict(c, variants=v4))
     for c in F.lists(tier, lens=range(6, 10)):
         cases.append(dict(c, variants=v4, family="W-LIST6+"))
+    for c in F.emit(tier):
+        cases.append(dict(c, variants=[{"remove_labels": False}, {"remove_labels": True}, {"remove_labels": True, "inline_functions": False}], bases=[{}, {"inline_functions": False}], monitors=[]))
+    for c in F.ctrl3(tier):
+        cases.append(dict(c, variants=[{"remove_labels": False}, {"remove_labels": True}], bases=[{}, {"inline_functions": False}]))
     for c in F.ctrl(tier)[:: (5 if tier == "quick" else 2)]:
         cases.append(dict(c, variants=[{"remove_labels": False}, {"remove_labels": True}], bases=[{}]))
     for c in cases:
